@@ -291,6 +291,7 @@ type Session struct {
 	curMs   int
 	feasUnknown int
 	feasSkip    int
+	feasStep    int
 	restarts    int
 }
 
@@ -307,7 +308,7 @@ const prelude = `(set-option :produce-models true)
 `
 
 func newSession(softMs int, logPath string) (*Session, error) {
-	s := &Session{softMs: softMs, feasMs: 150}
+	s := &Session{softMs: softMs, feasMs: 50}
 	if logPath != "" {
 		s.logf, _ = os.Create(logPath)
 	}
@@ -431,11 +432,18 @@ func (s *Session) Feasible() string {
 	if r == "unknown" {
 		s.feasUnknown++
 		if s.feasUnknown >= 3 {
-			s.feasSkip = 25
+			// back off: 25, 50, 100, 200 branches without asking, as long as asking stays fruitless
+			if s.feasStep < 25 {
+				s.feasStep = 25
+			} else if s.feasStep < 200 {
+				s.feasStep *= 2
+			}
+			s.feasSkip = s.feasStep
 			s.feasUnknown = 2
 		}
 	} else {
 		s.feasUnknown = 0
+		s.feasStep = 0
 	}
 	return r
 }
@@ -503,7 +511,32 @@ func (s *Session) Check() string {
 		}
 	}
 	if verdict == "timeout" || !strings.Contains(reason, "incomplete") {
-		s.restart()
+		// probe: does the process still accept a scope? (push 1)(pop 1) print nothing when they work
+		s.raw("(push 1)")
+		s.raw("(pop 1)")
+		s.raw("(echo \"@probe\")")
+		healthy := true
+		for !s.dead {
+			line, err := s.out.ReadString('\n')
+			if err != nil {
+				s.dead = true
+				s.errs = append(s.errs, "solver died: "+err.Error())
+				return "unknown"
+			}
+			line = strings.TrimSpace(line)
+			if s.logf != nil {
+				fmt.Fprintln(s.logf, "; -> "+line)
+			}
+			if strings.Contains(line, "@probe") {
+				break
+			}
+			if strings.HasPrefix(line, "(error") {
+				healthy = false
+			}
+		}
+		if !healthy {
+			s.restart()
+		}
 	}
 	return "unknown"
 }
